@@ -376,12 +376,16 @@ type treeCase struct {
 }
 
 func treeJobs(r *ev.Run) []job {
-	n := r.Pick(5000, 100000)
+	n := r.Pick(12000, 100000)
 	var jobs []job
 	for i := 0; i <= n; i++ {
 		id := fmt.Sprintf("t%d;", i)
 		i := i
-		jobs = append(jobs, job{id: id, weight: 0, fn: func() { runTree(r, id, i) }})
+		w := 0
+		if i < 2 {
+			w = 1 << 20 // the two fixed witness trees run (and report) first
+		}
+		jobs = append(jobs, job{id: id, weight: w, fn: func() { runTree(r, id, i) }})
 	}
 	return jobs
 }
